@@ -292,6 +292,7 @@ func runC15(c *Ctx) {
 		c15Soak(c, r, backends[r%4], dir, 1)
 	}
 	c15ConcurrentWrites(c, dir)
+	c15Reopen(c, dir)
 	// and with the largest packet a server can be configured for (262144) and regions that nearly fill it
 	for r := 0; r < rounds/2; r++ {
 		c15HugeReads(c, r, []string{"req", "reqalloc"}[r%2])
